@@ -48,6 +48,11 @@ def make_program(K, profile):
             ok = False
         if ok and profile.get("data_fault"):
             ok = inject_data_fault(prog, K.rng("datafault", tries))
+        if ok and profile.get("output_all_fail"):
+            # every output expression fails on the data: the first rendering yields nothing, so the
+            # engine renders again whenever it is asked to
+            prog["output"] = [["o_fault", ["faulty", K.choice(lang.FAULT_KINDS, "oaf")]]]
+            prog["fault_info"] = {"pos": "output", "task": None, "tr": None, "kind": "output_all"}
         tries += 1
         if not ok and tries > 40 and need:
             # the requested shape is too rare for this configuration: fall back to any clean one
